@@ -90,14 +90,15 @@ def build(which):
         # a parser whose defaults come partly from a default config file (an append key and a class change in it)
         import tempfile
 
-        path = os.path.join(tempfile.gettempdir(), "vf_c09_defaults.yaml")
+        path = os.path.join(tempfile.gettempdir(), "vf_c09_defaults_v2.yaml")
         if not os.path.exists(path):
             with open(path, "w") as f:
-                f.write("tags+: [c]\nm:\n  class_path: " + FX + "SubB\nn: 5\n")
+                f.write("tags+: [c]\notags+: [first]\nm:\n  class_path: " + FX + "SubB\nn: 5\n")
         p = ArgumentParser(exit_on_error=False, prog="cfgd", default_config_files=[path])
         p.add_argument("--cfg", action="config")
         p.add_argument("--tags", type=List[str], default=["a", "b"])
         p.add_argument("--n", type=Optional[int], default=None)
+        p.add_argument("--otags", type=Optional[List[str]], default=None)  # None in the source, appended to by the default config file
         p.add_argument("--m", type=F.Base, default={"class_path": FX + "SubA", "init_args": {"q": "dq"}})
         p.add_class_arguments(C9, "c")  # a class group with an Optional[dataclass] parameter
         return p
@@ -129,7 +130,7 @@ OBJ_A = [{}, {"a": 5}, {"a": "x"}, {"zz": 1}, {"l": [7]}, {"l+": 8}, {"m": "SubB
 STR_A = ["m:\n  init_args:\n    q: only\n", "m:\n  init_args:\n    r: [2.5]\n", "m:\n  init_args:\n    need: n\n", "l+: 3", "od:\n  j: 4\n", "a: 7", "a: [}", "{}", "", "sb:\n  y: SubA\n", "m: SubB", "l: [1, 2]", "zz: 1", "sa:\n  x: 5\n  lx: [q]\n", "subcommand: sa", "a: null"]
 ENV_A = [{}, {"APP_A": "9"}, {"APP_A": "q"}, {"APP_L": "[3]"}, {"APP_M": "SubB"}, {"APP_SUBCOMMAND": "sa", "APP_SA__X": "4"}, {"APP_SUBCOMMAND": "zz"}, {"APP_CFG": "{\"a\": 8}"}, {"APP_CFG": "[}"}]
 ARGV_C = [["--c.d.a=5"], ["--c.d={\"b\": \"z\"}"], ["--c.d.b=w", "--c.k=2"], ["--c.d=null"], ["--c.d.a=x"],
-          [], ["--help"], ["--tags+=d"], ["--tags=[x]"], ["--n=1"], ["--m.init_args.r=[1.5]"], ["--m=SubA"], ["--zz"], ["--print_config"], ["--cfg={\"tags+\": [\"e\"]}"]]
+          [], ["--help"], ["--tags+=d"], ["--otags+=second"], ["--tags=[x]"], ["--n=1"], ["--m.init_args.r=[1.5]"], ["--m=SubA"], ["--zz"], ["--print_config"], ["--cfg={\"tags+\": [\"e\"]}"]]
 OBJ_C = [{}, {"m": {"init_args": {"r": [2.5]}}}, {"m": {"init_args": {"q": "only"}}}, {"tags+": ["z"]}, {"n": None}, {"zz": 1}]
 ARGV_B = [["--cb.help", "SubA"], ["--cb.help", FX + "SubB"], ["--m.help", "SubA"], ["--cb=SubA"],
           [], ["--a=v"], ["--h.init_args.inner=SubA"], ["--m=SubB"], ["--zz"], ["--print_config"], ["--help"], ["--h.help"], ["--cfg={\"a\": \"c\"}"], ["--m.q=1"]]
